@@ -38,13 +38,14 @@ CName(x) == IF T[x].owner = 0 THEN <<0, x>> ELSE <<T[x].owner, CHOOSE j \in DOMA
 CRec(x) == [tracked |-> T[x].tracked, spent |-> T[x].spent, wired |-> T[x].wired, hasGrad |-> T[x].hasGrad,
             args |-> [k \in DOMAIN T[x].args |-> CName(T[x].args[k])]]
 CFoot(S) == {<<e[1], CName(e[2])>> : e \in S}
-View == <<prog, pc, [x \in 1..4 |-> CRec(x)], [g \in 1..NG |-> [j \in DOMAIN loc[g] |-> CRec(loc[g][j])]],
+View == <<prog, pc, [x \in 1..5 |-> CRec(x)], [g \in 1..NG |-> [j \in DOMAIN loc[g] |-> CRec(loc[g][j])]],
           [g \in 1..NG |-> [r |-> CFoot(fl[g].r), w |-> CFoot(fl[g].w), on |-> fl[g].on]]>>
 
 G == 1..NG
 Ids == 1..Len(T)
 Shared == [tracked |-> TRUE, spent |-> FALSE, wired |-> FALSE, args |-> <<>>, hasGrad |-> FALSE, owner |-> 0]
-InitHeap == <<Shared, [Shared EXCEPT !.tracked = FALSE], [Shared EXCEPT !.tracked = FALSE], [Shared EXCEPT !.tracked = FALSE]>>     \* 1: shared tracked parameter, 2: shared untracked tensor (from a constructor), 3: shared untracked RESULT of an operation, never used before, 4: shared untracked result of a COMPARISON, never used before
+InitHeap == <<Shared, [Shared EXCEPT !.tracked = FALSE], [Shared EXCEPT !.tracked = FALSE], [Shared EXCEPT !.tracked = FALSE],
+             [Shared EXCEPT !.spent = TRUE, !.hasGrad = TRUE]>>     \* 1: shared tracked parameter, 2: shared untracked tensor (from a constructor), 3: shared untracked RESULT of an operation, never used before, 4: shared untracked result of a COMPARISON, never used before, 5: a tracked leaf that was back-propagated (two contributions) before the goroutines start; its gradient has not been read yet
 
 (* a slot <<"s", i>> is shared tensor i; <<"l", j>> is the j-th tensor this goroutine created *)
 Resolve(g, slot) == IF slot[1] = "s" THEN slot[2] ELSE loc[g][slot[2]]
@@ -72,6 +73,7 @@ Footprint(g) ==
                 w |-> {<<"ctx", x>> : x \in R}]
        [] i[1] = "reset" -> [r |-> {}, w |-> {<<"ctx", Resolve(g, i[2])>>}]
        [] i[1] = "rand" -> [r |-> {}, w |-> {}]          \* the random source is used under its own lock
+       [] i[1] = "grad" -> [r |-> {<<"ctx", Resolve(g, i[2])>>, <<"val", Resolve(g, i[2])>>}, w |-> {}]      \* reading a gradient is a read
 
 (* the proviso: BackPropagate / Reset only on tensors no other goroutine's graph can reach *)
 Private(g, S) == \A x \in S : /\ T[x].owner = g
@@ -96,6 +98,7 @@ Effect(g) ==
   IN CASE i[1] = "leaf" -> /\ T' = Append(T, NewT(g, i[2], FALSE, FALSE, <<>>)) /\ loc' = [loc EXCEPT ![g] = Append(@, Len(T) + 1)]
        [] i[1] = "rand" -> /\ T' = Append(T, NewT(g, FALSE, FALSE, FALSE, <<>>)) /\ loc' = [loc EXCEPT ![g] = Append(@, Len(T) + 1)]
        [] i[1] = "cmp" -> /\ T' = Append(T, NewT(g, FALSE, FALSE, FALSE, <<>>)) /\ loc' = [loc EXCEPT ![g] = Append(@, Len(T) + 1)]
+       [] i[1] = "grad" -> /\ T' = Append(T, NewT(g, FALSE, TRUE, FALSE, <<>>)) /\ loc' = [loc EXCEPT ![g] = Append(@, Len(T) + 1)]     \* computed from a gradient tensor, which stems from spent tensors
        [] i[1] = "op" ->
             LET a == [k \in DOMAIN i[2] |-> Resolve(g, i[2][k])]
                 sp == \E k \in DOMAIN a : T[a[k]].spent
@@ -140,6 +143,7 @@ SeqRun(p, i, H, L) ==
            R(r) == IF ~H[r].tracked THEN {} ELSE {r} \cup UNION {R(H[r].args[k]) : k \in (IF H[r].wired THEN DOMAIN H[r].args ELSE {})}
            new(tr, sp, w, a) == [tracked |-> tr, spent |-> sp, wired |-> w, args |-> a, hasGrad |-> FALSE, owner |-> 9]
        IN CASE ins[1] \in {"leaf"} -> SeqRun(p, i + 1, Append(H, new(ins[2], FALSE, FALSE, <<>>)), Append(L, Len(H) + 1))
+            [] ins[1] = "grad" -> SeqRun(p, i + 1, Append(H, new(FALSE, TRUE, FALSE, <<>>)), Append(L, Len(H) + 1))
             [] ins[1] \in {"rand", "cmp"} -> SeqRun(p, i + 1, Append(H, new(FALSE, FALSE, FALSE, <<>>)), Append(L, Len(H) + 1))
             [] ins[1] = "op" -> LET a == [k \in DOMAIN ins[2] |-> res(ins[2][k])]
                                     sp == \E k \in DOMAIN a : H[a[k]].spent
@@ -154,6 +158,6 @@ SeqView(p) == LET s == SeqRun(p, 1, InitHeap, <<>>)
 Finished == \A g \in G : ~Running(g)
 Deterministic == Finished => \A g \in G : LocalView(g) = SeqView(prog[g])
 (* the shared tensors are never written under the proviso *)
-SharedUntouched == Proviso => T[1] = InitHeap[1] /\ T[2] = InitHeap[2] /\ T[3] = InitHeap[3] /\ T[4] = InitHeap[4]
+SharedUntouched == Proviso => T[1] = InitHeap[1] /\ T[2] = InitHeap[2] /\ T[3] = InitHeap[3] /\ T[4] = InitHeap[4] /\ T[5] = InitHeap[5]
 
 =============================================================================
